@@ -137,6 +137,43 @@ def random_scalar(rng):
             return c
 
 
+def boundary_sources(seed):
+    """long all-ASCII strings (60..200 bytes) with CR LF, lone CR, lone LF, LF CR and CR CR LF placed at every
+    offset within 2 of a multiple of 8 (hence of 16, 32, 64, 128: offsets 6..10, ..., 62..66, ..., 126..130, ...,
+    190..194), i.e. ending in / straddling / starting at every block boundary a chunked or SIMD scan may use;
+    plus strings with several CR LF pairs, all on 64-byte boundaries.  The offsets are fixed, the filler
+    characters and lengths derive from the seed."""
+    rng = random.Random(seed * 2654435761 + 171)
+    fill = [c for c in range(32, 127)] + [9]
+    out = []
+
+    def make(L, inserts):
+        t = [rng.choice(fill) for _ in range(L)]
+        for p, ins in inserts:
+            t[p:p + len(ins)] = ins
+        return t[:max(L, max(p + len(ins) for p, ins in inserts))]
+
+    offs = sorted({m + d for m in range(8, 193, 8) for d in (-2, -1, 0, 1, 2)})
+    for p in offs:
+        for ins in ([CR, LF], [CR], [LF], [LF, CR], [CR, CR, LF]):
+            if len(ins) > 1 and ins != [CR, LF] and min(p % 16, 16 - p % 16) > 2:
+                continue   # the two decoy arrangements only around multiples of 16
+            lo = max(60, p + len(ins))
+            lens = [lo if (p + len(ins)) % 3 == 0 else rng.randint(lo, 200)]
+            if ins == [CR, LF]:
+                lens.append(lo if lens[0] != lo else rng.randint(lo, 200))   # also: the pair ends the string
+            for L in lens:
+                out.append(("boundary", make(L, [(p, ins)])))
+    for step in (8, 16, 32, 64, 128):  # several pairs, each on the same kind of boundary
+        for d in (-2, -1, 0):
+            ps = [m + d for m in range(step, 197, step)][:6]
+            if ps:
+                out.append(("boundary", make(rng.randint(max(60, ps[-1] + 2), 200), [(p, [CR, LF]) for p in ps])))
+    out.append(("boundary", make(200, [(63, [CR, LF]), (127, [CR, LF]), (191, [CR, LF])])))
+    out.append(("boundary", make(130, [(63, [CR]), (64, [LF]), (127, [CR]), (128, [LF])])))
+    return out
+
+
 def gen_sources(seed, tier):
     """list of (stream, text) ; everything derives from the seed"""
     rng = random.Random(seed * 7919 + 17)
@@ -165,6 +202,7 @@ def gen_sources(seed, tier):
         out.append(("soup", t))
     for t, _ in KNOWN_SEG:
         out.append(("known", list(t)))
+    out += boundary_sources(seed)
     if tier == "thorough":
         alpha = [0x61, CR, LF, 0x301, ZWJ, 0x1F469, 0x1F1E9, 0xE4, 0x1100, 0x1161]
         rot = seed % len(alpha)
@@ -431,7 +469,9 @@ def oracle_text(m, iline, add):
         return n, 0, False
     tag, content = news
     if (tag == "A") != ascii_nocrlf:
-        add("variant", "form is %s but the text is %sASCII without CR LF" % ("Ascii" if tag == "A" else "Unicode", "" if ascii_nocrlf else "not "))
+        pairs = [i for i in range(len(text) - 1) if text[i] == CR and text[i + 1] == LF]
+        add("variant", "form is %s but the text is %sASCII without CR LF%s" % ("Ascii" if tag == "A" else "Unicode", "" if ascii_nocrlf else "not ",
+                                                                              " (%d code points, CR LF at offset(s) %s)" % (len(text), pairs[:8]) if pairs else ""))
     n += 1
     if tag == "A":
         if content != text:
@@ -564,7 +604,8 @@ def run(ctx, broken):
                    "line by line with the extracted model, and every clause of the property evaluated on the implementation's output. Streams: structured "
                    "(concatenated cluster templates: combining marks, ZWJ emoji, flags, Hangul jamo, prepend, Indic conjuncts, controls), ascii, crlf (all strings "
                    "<= 4 over CR LF a U+0301 U+00E4), ascii1/ascii2 (ALL 128 + 128^2 ASCII strings of length 1 and 2), soup (arbitrary scalars, malformed), known "
-                   "(20 known-answer segmentations), direct (hand-built variants incl. non-ASCII bytes in the Ascii variant)%s. evaluations = property clause "
+                   "(20 known-answer segmentations), boundary (all-ASCII strings of 60..200 bytes with CR LF / CR / LF / LF CR / CR CR LF at every offset within 2 of a "
+                   "multiple of 8 up to 194, and several CR LF pairs on 8/16/32/64/128-byte boundaries), direct (hand-built variants incl. non-ASCII bytes in the Ascii variant)%s. evaluations = property clause "
                    "evaluations on implementation output. Non-trivial = distinct non-empty text that converts to the Unicode form or contains CR or LF "
                    "(measured on the implementation's output), plus distinct non-empty hand-built values." % (
                        "; exhaustive: ALL strings of length <= 4 over a CR LF U+0301 ZWJ U+1F469 U+1F1E9 U+00E4 U+1100 U+1161 with every range; release profile re-run" if tier == "thorough" else ""))
